@@ -19,7 +19,7 @@ def classify(component, what, case):
 
 
 def run(cx):
-    from checks import fncomp; fncomp.run_fn(cx, ['utf8'])
+    from checks import fncomp; fncomp.run_fn(cx, ['utf8', 'lyb'])
     textcomp.run_text(cx, want=("xml", "json"), law=("roundtrip",))
     rtcomp.run_rt(cx, laws=("roundtrip",))
     rtxcomp.run_rtx(cx, laws=("roundtrip",))
